@@ -151,6 +151,18 @@ def check_case(case, ctx):
     bbox = (min(xs), min(ys), max(xs), max(ys))
     has_holes = any(r is None for r in rings)
 
+    if case.get("pre_wind"):
+        # history: index conversions on the OTHER grid kinds first (they must not colour what a
+        # later lookup on the face grid reports, however the sizes of the grids coincide)
+        sizes_by_kind = {k: refmodel.grid_size(spec, k) for k in enums}
+        with ctx.using("C04.lookup", "wind_index on every grid kind before the lookups"):
+            for kind in sorted(enums, key=lambda k: k == "face"):
+                for k in range(min(sizes_by_kind[kind], 64)):
+                    conv.wind_index(k, grid_kind=enums[kind])
+        ctx.label("pre_wind")
+        if any(k != "face" and v == sizes_by_kind["face"] for k, v in sizes_by_kind.items()):
+            ctx.label("pre_wind:another_grid_kind_as_large_as_the_face_grid")
+
     saw_tie = saw_miss = saw_hole_point = False
     for sel in case["points"]:
         xy = make_point(sel, rings, hole_rings, bbox)
@@ -233,7 +245,7 @@ def cases(draw, convs=S.ALL_CONVS):
     spec = draw(S.dataset_spec(convs=convs, max_vars=2, max_extra=1, modes=("raw",),
                                geom_kwargs={"allow_overlap": True, "max_n": 6}))
     points = draw(st.lists(POINT, min_size=12, max_size=40))
-    return {"spec": spec, "points": points}
+    return {"spec": spec, "points": points, "pre_wind": draw(st.booleans())}
 
 
 def strategy(tier):
